@@ -58,12 +58,13 @@ Definition ev_fold_t (dt : TT) (obs : list bool) (state : option (list nv)) : li
   end.
 
 (* ------------------------------------------------------------------ batch reductions (axis 0) *)
-Inductive redkind := RSum | RMean | RAmax.
+Inductive redkind := RSum | RMean | RAmax | RAmin.
 Definition reduce (k : redkind) (l : list TT) : TT :=
   match k with
   | RSum => tsum N l
   | RMean => div N (tsum N l) (ofZ N (Z.of_nat (length l)))
   | RAmax => match l with [] => zero N | x :: t => fold_left (tmax N) t x end
+  | RAmin => match l with [] => zero N | x :: t => fold_left (tmin N) t x end
   end.
 
 (* ------------------------------------------------------------------ adjusted time difference
